@@ -3,5 +3,9 @@ from loopsim import *
 
 
 def run(chk):
+    # `links` = "<links> <locals>" (loopsim.links_coq).  check_C04: at most once + classification + no
+    # strangers on every trace; check_C04_complete: at least once, on settled traces, judged against
+    # the model's own trace of the same scenario (loopsim.compare_build).
     return run_loop_check(chk, lambda n, links, t: f"check_C04 {links} {t}", "mixed",
-                          "supervision event missing, duplicated, misclassified or sent to a stranger")
+                          "supervision event missing, duplicated, misclassified or sent to a stranger",
+                          complete_fn=lambda links, t: f"check_C04_complete {links} {t}")
